@@ -93,19 +93,25 @@ KEY_INTS = [0, 1, 2, 5, 23, 24, 25, 255, 256, 1000, 65536, -1, -2, -24, -25, -25
 KEY_BYTES = [b'', b'a', b'b', b'z', b'ab', b'zz', b'\x00', b'\xff', b'abc', b'\x00\x00', b'key-with-24-bytes-------', b'k' * 28]
 
 
-def rand_keys(rng, n):
+def rand_keys(rng, n, top=False):
     """n distinct map keys (CBOR bytes) in random order; distinct as Python values too (ints vs bytes never collide)"""
-    style = rng.randint(0, 3)
+    style = rng.randint(0, 4 if top else 3)
+    if style == 4:       # top-level maps only: inside a RawPlutusData the user would have to write frozen keys by hand
+        # keys that are constructors with fields (a map keyed by credential / asset class): in the Python value the key is a
+        # hashable PlutusData instance, on the wire an indefinite-length list inside a map key
+        pool = [e_constr(i, fs, compact=True) for i in (0, 1, 2, 6, 7) for fs in
+                ([e_int(1)], [e_int(2)], [e_bytes(b'k' * 28)], [e_int(0), e_bytes(b'ab')], [e_bytes(b''), e_int(-1)])]
+        return rng.sample(pool, n)
     pool = ([e_int(k) for k in KEY_INTS] if style == 0 else [e_bytes(k) for k in KEY_BYTES] if style == 1
             else [e_int(k) for k in KEY_INTS] + [e_bytes(k) for k in KEY_BYTES])
     return rng.sample(pool, n)
 
 
-def rand_map(rng, depth, first=None):
+def rand_map(rng, depth, first=None, ckeys=True):
     """a map with 0..4 entries in INSERTION order (random: usually neither bytewise nor canonical order);
     first = an entry that has to stay in first position"""
     n = rng.choice([0, 1, 2, 2, 3, 3, 4])
-    keys = [k for k in rand_keys(rng, n) if first is None or k != first[0]]
+    keys = [k for k in rand_keys(rng, n, top=ckeys and depth >= 2) if first is None or k != first[0]]
     if rng.random() < 0.15:
         keys.sort()                                             # bytewise order: still not canonical when lengths differ
     pairs = [(k, rand_pd(rng, depth - 1)) for k in keys]
@@ -161,7 +167,9 @@ def rdm_data(rng, rid):
     if k == 2:
         return e_constr(rng.choice([0, 1, 3, 9]), [e_int(rid)] + [rand_pd(rng, 2) for _ in range(rng.randint(0, 2))],
                         compact=rng.random() < 0.5)
-    return rand_map(rng, 2, first=(e_int(rid), rand_pd(rng, 1)))
+    # (no constructor keys in redeemers: estimating execution units deep-copies the redeemer through from_cbor, which cannot
+    # read such a map back -- known finding C18-map-key-unhashable-build)
+    return rand_map(rng, 2, first=(e_int(rid), rand_pd(rng, 1)), ckeys=False)
 
 
 def blake(b, n):
